@@ -55,6 +55,13 @@ def api_witness(slice_, timeout):
         o = _overlapping(sp)
         if o:
             return {'state': 'counterexample', 'cex': {'w': kind}, 'detail': 'overlapping entities %r' % (o,), 'queries': 1}
+    elif kind == 'F44':
+        from recognizers_date_time import recognize_datetime
+        q = 'before 1/1/2016 and after'
+        sp = _spans(recognize_datetime(q, 'en-us', reference=datetime(2016, 11, 7)))
+        bad = [x for x in sp if q[x[1]:x[2] + 1].strip() != x[0].strip()]
+        if bad:
+            return {'state': 'counterexample', 'cex': {'w': kind}, 'detail': 'text differs from the slice: %r' % (bad,), 'queries': 1}
     elif kind == 'F37-overlap':
         from recognizers_date_time import recognize_datetime
         sp = _spans(recognize_datetime('明天三天后', 'zh-cn', reference=datetime(2016, 11, 7)))
